@@ -442,6 +442,25 @@ def _server_row(job):
                     w.w.inject(crs[0], CA, kind="model")
                     w.w.tick()
                     w.w.tick()
+        elif kind == 4:
+            # the right key, a token that equals the issued one only in its low bits: "carries the token it issued" means that number, not a relative of it
+            w.to_server(dict(t="ch", pub="c"), "ca")
+            w.to_client(sh)
+            conn = w.w.ctxt.temp_connections.get(CA)
+            key = w.cl.conn.session_key_bytes if w.cl.conn is not None else None
+            if conn is None or not key:
+                return None
+            C = w.C
+            msg = C.HandshakeClientChallengeResponseMessage()
+            msg.token = [conn.token + 2 ** 31, conn.token - 2 ** 31, conn.token + 2 ** 32, conn.token | 2 ** 40, conn.token ^ 1, -conn.token][mut[1]]
+            try:
+                hdr = C.PacketHeader.create(False, int(w.w.vt.time()), C.PacketType.CHALLENGE_RESP, C.SeqNum(w.nextseq()), C.SeqNum(1), 0)
+                raw = C.Packet.create(hdr, [C.PendingMessage(C.SeqNum(w.nextseq()), C.PacketType.CHALLENGE_RESP, msg.dumpb(), None, C.RetryMode.NONE)]).to_bytes(key)
+            except Exception:
+                return None                      # the value cannot be encoded
+            w.w.inject(raw, CA, kind="model")
+            w.w.tick()
+            w.w.tick()
         else:
             w.to_server(dict(t="ch", pub="c"), "ca")
             w.to_client(sh)
@@ -488,6 +507,8 @@ def sweep_server(ctx):
     # (bytes appended after the authenticated part are ignored by the parser - the length field is inside the authenticated header; such a copy still
     #  proves possession of the key and is not a mutation in the sense of the property)
     jobs.append((ctx.seed, 3, ("same", 0, 0)))
+    for k in range(6):
+        jobs.append((ctx.seed, 4, ("token-variant", k, 0)))
     with ProcessPoolExecutor(16) as ex:
         res = list(ex.map(_server_row, jobs, chunksize=8))
     rows = [r for r in res if r is not None]
@@ -510,7 +531,7 @@ def sweep_server(ctx):
             for tr in r.traces:
                 for k, row in to_json(T.materialise(tr[-1]).get("bad", []))[:4]:
                     ctx.fail("%s mutation %s: [kind, server reported connect, client connected, same key, same token, connect for another address] = %s"
-                             % ({1: "client hello", 2: "challenge response", 3: "challenge response replayed from another address"}[row[0]], list(meta[k - 1][2]), row), dict(mutation=list(meta[k - 1][2]), kind=row[0], row=row))
+                             % ({1: "client hello", 2: "challenge response", 3: "challenge response replayed from another address", 4: "challenge response with a relative of the issued token"}[row[0]], list(meta[k - 1][2]), row), dict(mutation=list(meta[k - 1][2]), kind=row[0], row=row))
     finally:
         shutil.rmtree(wd, ignore_errors=True)
 
